@@ -1010,9 +1010,9 @@ pub fn parse_application<T: Core>(c: &mut Context<T>, s: Cursor) -> ParserResult
     let ns = &mut Vec::new();
     let (s, n0) = parse_variable(c, s)?;
     ns.push(n0);
-    let (s, n1) = parse_unary_kind(c, s)?;
+    let (s, n1) = parse_term_kind(c, s)?;
     ns.push(n1);
-    let s = repeat(c, s, ns, &[parse_unary_kind]);
+    let s = repeat(c, s, ns, &[parse_term_kind]);
     Ok((s, c.compose(SyntaxKind::Application, ns)))
 }
 
